@@ -15,6 +15,8 @@ A program is a list of commands (JSON-able lists):
   ["ops", c]                         pure listing (c.operations only; answers the count)
   ["copyobs", c]                     copy the structure and list the copy (observer)
   ["apply", c] ["flatten", c] ["copy", c]               mutators (copy → new circuit handle)
+  ["adopt", h]                       the nested copy a `sub` returned (handle h) becomes a circuit index of its own: the caller
+                                     keeps the handle and adds to it later (forced streams only)
 """
 from __future__ import annotations
 import contextlib
@@ -271,6 +273,7 @@ class ImplRun:
         self.implicit_only = True
         self.nested_into = {}     # circuit index -> set of circuit indices it was (transitively) nested into
         self.meas_reg = {}        # id(measurement original) -> circuit index of its registry
+        self.shadow_broken = False
 
     def close(self):
         if self.in_override and self.ctx is not None:
@@ -351,9 +354,13 @@ class ImplRun:
     def measurements_own_registry(self, c):
         """every measurement listed in circuit c was created against the registry of the circuit it was added to
         (the quantifier of C07), decided from the program, not from the implementation's state."""
+        if self.shadow_broken:
+            return False
         return all(it[2] for it in shadow_leaves(self.shadow[c]))
 
     def shadow_expected(self, c):
+        if self.shadow_broken:
+            return None
         try:
             return shadow_count(self.shadow[c])
         except Exception:
@@ -414,6 +421,15 @@ class ImplRun:
             self.handles.append(ret)
             import copy as _copy
             self.shadow[cmd[1]]['items'].append(('sub', _copy.deepcopy(self.shadow[cmd[2]])))
+        elif k == 'adopt':
+            # the nested copy a `sub` returned, kept by the caller and added to later: addressable as a circuit of its own
+            obj = self.handles[cmd[1]]
+            assert isinstance(obj, a.CircuitCompositeOperation)
+            d = a.DeclarativeCircuit()
+            d._structure = obj
+            self.circs.append(d)
+            self.shadow.append({'rep': 'f1', 'items': []})
+            self.shadow_broken = True      # the shadow of the parent no longer follows what is added through the handle
         elif k == 'list':
             return self.observe_list(cmd[1])
         elif k == 'dur':
